@@ -31,6 +31,7 @@ CHECKS["C17"] = dict(engine="S", text="every catalogue operation, the three sele
 
 CHECKS["C18"] = dict(engine="S+X+L", text="all histories up to the bound over {accessor calls, in-place replacement of efth, in-place relabelling of dir with the same / another spacing, unknown-statistic call, reader call, transform call} are executed on one symbolic object (DataArray and Dataset); afterwards every observed statistic must be solver-equal to the one computed on a freshly built object with the same contents and the Dataset accessor must agree with its efth variable; CrossHair checks that AttrDict lookups do not change membership; the static buffers of the C extension are covered by consecutive_calls in C04", ref="6/C18")
 
+CHECKS["C19"] = dict(engine="S", text="inductive decomposition: the real match_consecutive_partitions is executed on symbolic peak frequencies/directions and thresholds (merging arrays keep the elementwise threshold tests as terms, forks only at the real control flow) and z3 proves the step postcondition on every path; the real np_track_partitions is then run with the matcher replaced by every vector that postcondition allows (propagation lemma: uniqueness, 0..N-1 in order of appearance, no reappearance) and once unmodified on symbolic statistics (glue: slices, threshold indexing, dt); the xarray wrapper per site", ref="6/C19")
 CHECKS["C20"] = dict(engine="S+L", text="exception monitor over symbolic sweeps of every statistic/transform/rule-based partition on the degenerate families (zero, constant, single bin, peak on the first/last frequency, 1-2 directions, 1-3 frequencies): any exception on a feasible path is replayed and reported; invalid arguments must raise ValueError; the IR of specpart.c is executed with an in-bounds obligation on every load/store, an int32-overflow obligation on every add/sub/mul, initialised-read, use-after-free and instruction-budget checks, counterexamples replayed under ASan/UBSan; the level-index clamp is proved for all doubles as a QF_FP query", ref="6/C20",
                       technique="symbolic execution (Python code over z3 reals; compiler IR of the C file with memory/overflow obligations) + SMT, QF_FP lemma, sanitizer replay")
 
